@@ -271,7 +271,9 @@ def item_value(ty, item):
         if top["k"] == "choice" and not multiple(top):
             # Choice.parse_kwargs: when no branch carries a value the value object gets no element field at all
             def has_value(v):
-                return v is not None and v != [] and v != {}
+                # indicators._has_value: None and empty lists / plain dicts are not values; a value object (what a dict
+                # stands for here: the decoded item of a complex type) is, even when all of its fields are empty
+                return v is not None and v != []
             if not any(has_value(v) for k_, v in fields.items() if k_ != "_raw_elements"):
                 for k_ in list(out):
                     if k_ not in [a["attr"] for a in ty["attrs"]]:
